@@ -3,7 +3,7 @@
     case = ( version event state oracle ); outcome = (0 ()) accepted | (1 0) rejected. *)
 From Base Require Import Prelude Sx Json Rules.
 From Gen Require Import RoomRules.
-From C08 Require Import Types Ids Codec Model Spec.
+From C08 Require Import Types Ids Codec Model Spec Known.
 
 Definition sx_verdict (b : bool) : sx := if b then SL [SN 0; SL []] else SL [SN 1; SN 0].
 
@@ -26,7 +26,7 @@ Definition run (x : sx) : sx :=
               let m := auth_check uid_ok sn_ok vf (authorization R) ev state in
               let ok :=
                 match impl_accepts impl with
-                | Some b => negb (wf_inputsb v ev) || known_deviation v ev state
+                | Some b => negb (wf_inputsb v ev state) || known_deviation v ev state
                             || Bool.eqb b (spec_auth uid_ok sn_ok vf v ev state)
                 | None => false
                 end in
